@@ -83,6 +83,8 @@ def mk(op, N, k=1, tk=None, region=None, rname='', lead=2, trail=0, gap='sym', d
     parts = [pid, op, rname or 'any', 'N%d' % N]
     if idlen != 1:
         parts.append('idlen' + str(idlen))
+    if extra and extra.get('prehist'):
+        parts.append('after-roReplace')
     if k != 1:
         parts.append('k%d' % k)
     if tk and tk != 'existing':
@@ -151,6 +153,11 @@ def cells(tier):
     for op, kw in (('roStoryMove', {}), ('EAStoryMove', {'k': 2}), ('roStoryDelete', {'k': 2}), ('roStoryReplace', {}),
                    ('roStorySend', {}), ('EAStorySwap', {'k': 2}), ('roStoryInsert', {})):
         out.append(mk(op, 3, gap=None, idlen='1-2', rname='prefix-ids', timeout=T, **kw))
+    # the same from a state reached through a roReplace (new roCreate element, deep-copied children)
+    for op, kw in (('roStoryMove', {}), ('EAStoryMove', {'k': 2}), ('roStoryDelete', {}), ('roStoryReplace', {}),
+                   ('roStorySend', {}), ('EAStorySwap', {'k': 2}), ('roStoryInsert', {}), ('roStoryAppend', {}),
+                   ('EAStoryInsert', {'tk': 'blank'}), ('EAStoryDelete', {'k': 2}), ('EAStoryReplace', {})):
+        out.append(mk(op, 3, gap=None, rname='any', timeout=T, extra={'prehist': True}, **kw))
     # one larger shape per order-sensitive type (no gap child: keeps the path tree small)
     big = 4 if tier == 'quick' else 5
     if tier == 'quick':
